@@ -255,6 +255,9 @@ func (s *Sim) handleTx(t *PendingTx, m *txMeta, obs *TxObs, r *abci.ExecTxResult
 		s.Stats.Count("panic_outside_receive_path:" + kind)
 		s.logf("note: tx of op %d (%s) aborted by a panic outside the receive path: %.200s", m.OpID, kind, oneLine(obs.Log))
 	}
+	if kind == "recv" {
+		s.Stats.Count("rule:C14.no-panic")
+	}
 	if obs.IsPanic() && kind == "recv" {
 		if os.Getenv("VERIF_STACK") != "" {
 			fmt.Println(obs.Log)
